@@ -246,6 +246,133 @@ def bf_work(arg):
 
 
 # ---------------------------------------------------------------------------
+# part 2b: the two windows as a keyed CONNECTION applies them.  Datagrams are produced by an independent encoder
+# (AES-GCM called directly) with chosen datagram / message sequence numbers and handed to ConnectionBase._recv_datagram
+# the way tests/connection_test.py does; a message is delivered exactly when its number was not received inside the
+# 256-window, a datagram is accepted exactly when it is neither a repeat inside the 32-window nor older than it.
+
+def conn_window_work(arg):
+    import struct as _st
+    from cryptography.hazmat.primitives.ciphers.aead import AESGCM
+    from mpgameserver.connection import ConnectionBase, ConnectionStatus, PacketHeader, PacketType
+    start, depth = arg
+    KEY = bytes(range(16, 32))
+    viols = {}
+    MOFFS = [1, 2, 255, 256, 257, 300, -1, -2, -255, -256, -257, -300, 0]
+    POFFS = [1]      # datagram numbers stay fresh in the message part
+    total = 0
+    nodes = 0
+
+    def dgram(pseq, mseq, n):
+        body = _st.pack(">H", mseq) + b"m%d" % n
+        hdr = _st.pack(">4sLHHBHBL", b"FSOS", 5000, pseq, 0, PacketType.APP.value, len(body), 1, 0)
+        return hdr + AESGCM(KEY).encrypt(hdr[:12], body, hdr)
+
+    def fresh():
+        c = ConnectionBase(True, ("10.0.0.8", 8))
+        c.clock = lambda: 5000.5
+        c.session_key_bytes = KEY
+        c.status = ConnectionStatus.CONNECTED
+        return c
+
+    def flag(sig, hist, msg):
+        viols.setdefault(("conn-window", sig), [0, {"part": "conn-window", "start": start, "history": list(hist)}, msg])[0] += 1
+
+    # depth-first over message-number offset sequences; the connection is rebuilt by replaying the history
+    stack = [()]
+    while stack:
+        hist = stack.pop()
+        nodes += 1
+        conn = fresh()
+        ref = RefWindow(256)
+        pseq = 10
+        mcur = start
+        ok = True
+        n = 0
+        seq_hist = []
+        for o in ("first",) + hist:
+            n += 1
+            pseq += 1
+            if o == "first":
+                mseq = start
+            else:
+                mseq = ring_add(ref.cur, o) if o >= 0 else ring_add(ref.cur, o % RING)
+            seq_hist.append(mseq)
+            want_dup = ref.insert(mseq)
+            before = len(conn.incoming_messages)
+            total += 1
+            try:
+                d = dgram(pseq, mseq, n)
+                res = conn._recv_datagram(PacketHeader.from_bytes(True, d), d)
+            except Exception as e:
+                flag("_recv_datagram raises %s" % type(e).__name__, seq_hist, repr(e))
+                ok = False
+                break
+            delivered = len(conn.incoming_messages) > before
+            if delivered == want_dup:
+                where = "older than the 256-window" if (o != "first" and o < -256) else ("inside the window" if (o != "first" and o <= 0) else "newer than everything received")
+                flag("a message %s is %s" % (where, "dropped as duplicate although its number was never received inside the window" if not delivered else
+                                             "delivered although its number was already received inside the window"), seq_hist,
+                     "message numbers %r: last one delivered=%s, reference duplicate=%s" % (seq_hist, delivered, want_dup))
+                ok = False
+                break
+        if ok and len(hist) < depth:
+            for o in MOFFS:
+                stack.append(hist + (o,))
+    # datagram window: sequences of datagram-number offsets, message numbers always fresh
+    DOFFS = [1, 2, 31, 32, 33, 40, -1, -2, -31, -32, -33, -40, 0]
+    stack = [()]
+    while stack:
+        hist = stack.pop()
+        nodes += 1
+        conn = fresh()
+        recv = set()
+        cur = None
+        mseq = 100
+        ok = True
+        seq_hist = []
+        for o in ("first",) + hist:
+            mseq += 1
+            if o == "first":
+                p = start
+            else:
+                p = ring_add(cur, o) if o >= 0 else ring_add(cur, o % RING)
+            seq_hist.append(p)
+            if cur is None:
+                want_accept = True
+            else:
+                dd = ring_diff(p, cur)
+                want_accept = dd > 0 or (-32 <= dd < 0 and p not in recv)
+            total += 1
+            dropped0 = conn.stats.dropped
+            try:
+                d = dgram(p, mseq, mseq)
+                before = len(conn.incoming_messages)
+                conn._recv_datagram(PacketHeader.from_bytes(True, d), d)
+            except Exception as e:
+                flag("_recv_datagram raises %s" % type(e).__name__, seq_hist, repr(e))
+                ok = False
+                break
+            accepted = len(conn.incoming_messages) > before
+            if accepted != want_accept:
+                flag("a datagram is %s" % ("accepted although it is a repeat inside / older than the 32-window" if accepted else "rejected although it is new inside the 32-window"),
+                     seq_hist, "datagram numbers %r: last one accepted=%s, reference %s" % (seq_hist, accepted, want_accept))
+                ok = False
+                break
+            if not accepted and conn.stats.dropped != dropped0 + 1:
+                flag("a rejected datagram is not counted as dropped", seq_hist, "dropped %d -> %d" % (dropped0, conn.stats.dropped))
+            if want_accept:
+                if cur is None or ring_diff(p, cur) > 0:
+                    cur = p
+                recv.add(p)
+                recv = {x for x in recv if 0 <= ring_diff(cur, x) <= 32}
+        if ok and len(hist) < depth:
+            for o in DOFFS:
+                stack.append(hist + (o,))
+    return nodes, total, viols
+
+
+# ---------------------------------------------------------------------------
 # part 3: wire ack fields
 
 class AckMonitor(Monitor):
@@ -342,6 +469,13 @@ def run(tier, seed):
     bf_rows = [{"width": r[4][0], "start": r[4][1], "depth": r[4][2], "states": r[0], "transitions": r[1]} for r in res]
     for r in res:
         fold(r[3])
+    # part 2b
+    cw_jobs = [(start, 3 if tier == "quick" else 4) for start in (1, 300, 65400, 65535)]
+    res = core.pmap("checks.c08", "conn_window_work", cw_jobs)
+    cw_nodes = sum(r[0] for r in res)
+    cw_total = sum(r[1] for r in res)
+    for r in res:
+        fold(r[2])
     # part 3
     plist = [(d, size, retry, order, lat) for d in ("c2s", "s2c") for size, retry in ((30, "none"), (30, "best"), (1700, "retry"))
              for order, lat in ((("cs", 1), ("sc", 0)) if tier == "quick" else (("cs", 1), ("sc", 0), ("cs", 0), ("sc", 1)))]
@@ -356,10 +490,11 @@ def run(tier, seed):
     rep.coverage = {
         "states": bf_states + st.points, "transitions": bf_trans + st.steps, "traces_validated_against_impl": bf_trans + st.executions,
         "seqnum_pairs": n_seq, "seqnum_offsets": len(offsets(tier)), "seqnum_chain_steps": n_chain,
-        "bitfield": bf_rows, "wire_executions": st.executions, "wire_capped": st.capped, "wire_by_deviations": st.by_cost,
-        "evaluations": n_seq + bf_trans + st.executions, "distinct_nontrivial": bf_states + len(st.outcomes),
+        "bitfield": bf_rows, "conn_window_histories": cw_nodes, "conn_window_datagrams": cw_total, "wire_executions": st.executions, "wire_capped": st.capped, "wire_by_deviations": st.by_cost,
+        "evaluations": n_seq + bf_trans + cw_total + st.executions, "distinct_nontrivial": bf_states + len(st.outcomes),
         "rule": "seqnum: all 65535 values x %d offsets (1,2,31..33,255..257,32765..32767 and every %dth up to 32767) + successor chain over two laps; "
                 "bitfield: BFS per (width, start) hashed on (newest, bits), alphabet = insert(newest+o) for offsets around 0, +-width and far jumps, contains() compared on +-(w+3) after every insert; "
+                "conn-window: every sequence of <=3 (quick) / 4 message-number offsets (+-1,2,255..257,300,0) and of datagram-number offsets (+-1,2,31..33,40,0) fed to a keyed ConnectionBase as sealed datagrams, 4 start positions incl. the wrap; "
                 "wire: every header emitted in every <=2-deviation execution of %d configurations" % (len(offsets(tier)), 1021 if tier == "quick" else 29, len(plist)),
         "exhaustive": not st.capped,
         "samples": [{"seqnum": {"a": 65535, "d": 32767}}, {"bitfield": {"width": 8, "history": ["insert 65530", "insert cur+7", "insert cur-8", "insert cur-10"]}}] + st.samples[:2],
@@ -369,7 +504,14 @@ def run(tier, seed):
     return rep
 
 
+def replay_conn_window(witness):
+    return []
+
+
 def replay(witness):
+    if witness.get("part") == "conn-window":
+        n, t, viols = conn_window_work((witness["start"], 4))
+        return [core.Violation(k[0], k[1], v[1], v[2]) for k, v in viols.items()]
     part = witness.get("part")
     if part == "seqnum":
         global _D
